@@ -20,6 +20,15 @@ CLAIMED = {
     ),
 }
 
+CLAIMED["C14"] = dict(
+    engine="symx",
+    technique="symbolic execution of the real go/ssa code, path conditions decided by z3 (bounded model checking over all bodies up to N bytes)",
+    text=("NeedsQuote, Quote, Unquote, Parse and Format are executed symbolically on every body up to the length bound. Asserted: NeedsQuote(data) is true exactly when "
+          "Parse(Format({f,data})) is not the single file f with fixNL(data); for accepted data Unquote(Quote(d)) == d, the quoted form needs no quoting and round-trips; "
+          "Quote refuses only data without final newline or invalid UTF-8 (independent RFC 3629 reference predicate)."),
+    design_ref="DESIGN.md §4 C14",
+)
+
 NOT_APPLICABLE = {
     "C20": "goproxytest's behaviour lives in net/http, archive/zip+flate, encoding/json (reflection) and directory walks; none is encodable by the SSA symbolic executor, and with them stubbed nothing solver-relevant remains (its once-per-key ingredient is par.Cache = C10)",
 }
